@@ -47,14 +47,14 @@ def run(chk):
     chk.assume('contract precondition: incident beam not parallel to gravity, gravity non-zero, raised beam non-zero')
     chk.assume('binned wavelength: lifting of element-wise operations to events is scipp behaviour (assumed, see C06)')
     mod = kit.load(MOD)
-    drop_contract(chk, mod)
-    unit_vectors_contract(chk, mod)
-    generic_path(chk, mod)
-    orthogonal_path(chk, mod)
-    dispatcher(chk, mod)
-    yz_variant(chk, mod)
+    chk.section('drop_contract', drop_contract, mod)
+    chk.section('unit_vectors_contract', unit_vectors_contract, mod)
+    chk.section('generic_path', generic_path, mod)
+    chk.section('orthogonal_path', orthogonal_path, mod)
+    chk.section('dispatcher', dispatcher, mod)
+    chk.section('yz_variant', yz_variant, mod)
     lemmas(chk)
-    frames(chk, mod)
+    chk.section('frames', frames, mod)
 
 
 def drop_contract(chk, mod):
